@@ -94,6 +94,11 @@ func seqScenario(cc copyCase, cfg string, withP bool) engine.Scenario {
 			rA = cc.ops[oi].run(e, oa)
 		}
 
+		if bytes.HasPrefix(rA, []byte("PANIC")) || (cfg != "nokeys" && bytes.HasPrefix(rA, []byte("error:"))) {
+			// an admissible operation failing on the ORIGINAL: either a defect or a harness error, never silent
+			c.Fail(sig+cc.ops[oi].name+"/fails-on-original", "%s on the original (config %s): %s", cc.ops[oi].name, cfg, short(rA))
+			return
+		}
 		// --- original B and its copy
 		uni.Seed(c, name, "build")
 		ob := cc.build(e, cfg)
@@ -201,7 +206,7 @@ func first(s []string, n int) []string {
 }
 
 func short(b []byte) string {
-	if len(b) < 80 && isPrintable(b) {
+	if len(b) < 240 && isPrintable(b) {
 		return string(b)
 	}
 	return fmt.Sprintf("%d bytes #%016x", len(b), engine.Hash(b))
